@@ -159,9 +159,58 @@ func GBKEncode(s string) []byte {
 	return b
 }
 
+// gbkEdge: runes at the edges of the GBK code space (computed once): the single-byte 0x80 (the euro sign in Go's table), the
+// lowest / highest lead bytes (81, fe), trail bytes 40, 7e, 80, fe, and encodings whose bytes are also valid UTF-8 (lead c2..df,
+// trail 80..bf) — the places where "is this ASCII / UTF-8 / one byte?" shortcuts go wrong.
+var (
+	gbkEdgeOnce sync.Once
+	gbkEdge     []rune
+)
+
+func gbkEdgeRunes() []rune {
+	gbkEdgeOnce.Do(func() {
+		enc := simplifiedchinese.GBK.NewEncoder()
+		per := map[string]int{}
+		for _, r := range GBKRunes()[95:] {
+			b, err := enc.Bytes([]byte(string(r)))
+			if err != nil {
+				continue
+			}
+			class := ""
+			switch {
+			case len(b) == 1:
+				class = "single"
+			case b[0] == 0x81, b[0] == 0xfe:
+				class = fmt.Sprintf("lead%02x", b[0])
+			case b[1] == 0x40, b[1] == 0x7e, b[1] == 0x80, b[1] == 0xfe, b[1] == 0x7d, b[1] == 0x5c:
+				class = fmt.Sprintf("trail%02x", b[1])
+			case b[0] >= 0xc2 && b[0] <= 0xdf && b[1] >= 0x80 && b[1] <= 0xbf:
+				class = "utf8-lookalike"
+			}
+			if class != "" && per[class] < 6 {
+				per[class]++
+				gbkEdge = append(gbkEdge, r)
+			}
+		}
+	})
+	return gbkEdge
+}
+
 func (g G) GBK(maxRunes int) string {
 	rs := GBKRunes()
 	n := g.Intn(maxRunes + 1)
+	if n > 0 && g.Chance(1, 5) {
+		// ASCII text with exactly one rune from the edges of the code space (alone, first, last or in the middle)
+		e := gbkEdgeRunes()
+		r := make([]rune, n)
+		for i := range r {
+			r[i] = rs[g.Intn(95)]
+		}
+		if len(e) > 0 {
+			r[[]int{0, n - 1, g.Intn(n)}[g.Intn(3)]] = e[g.Intn(len(e))]
+		}
+		return string(r)
+	}
 	r := make([]rune, n)
 	for i := range r {
 		if g.Chance(1, 3) {
